@@ -96,6 +96,9 @@ class Transport:
             w.on_exchange(apdu)
         if w.dead:
             raise OSError("read error")
+        if not self.opened:
+            w.log.append(("use-after-close", None, apdu))
+            raise ValueError("not open")
         idx = w.seq
         w.seq += 1
         if idx >= w.max_exchanges:
